@@ -343,16 +343,24 @@ def run_check(modname, tier, seed, replay=None):
     # verdict
     # ------------------------------------------------------------------
     findings = load_findings()
-    known = {f["mechanism"]: f for f in findings.get("findings", [])
-             if f.get("property") == prop}
+    known = {}
+    for f in findings.get("findings", []):
+        if f.get("property") == prop:
+            for mech in f["mechanisms"]:
+                known[mech] = f
     known_hits = collections.OrderedDict()
     unexplained = []
     for v in merged["violations"]:
         mech = v.get("mechanism")
-        if mech is not None and mech in known:
-            known_hits.setdefault(mech, []).append(v)
+        # a witness may combine several mechanisms ("a & b"): it is explained
+        # only if every one of them is a listed finding
+        atoms = mech.split(" & ") if mech else []
+        if atoms and all(a in known for a in atoms):
+            for a in atoms:
+                known_hits.setdefault(known[a]["id"], []).append(v)
         else:
             unexplained.append(v)
+    by_id = {f["id"]: f for f in findings.get("findings", [])}
 
     floors = getattr(module, "FLOORS", {}).get(tier, {}) if replay is None else {}
     floor_fail = []
@@ -410,8 +418,8 @@ def run_check(modname, tier, seed, replay=None):
     if merged["notes"]:
         print(f"[{prop}] observations outside the property: {json.dumps(dict(merged['notes']))}")
 
-    for mech, vs in known_hits.items():
-        f = known[mech]
+    for fid, vs in known_hits.items():
+        f = by_id[fid]
         print(f"KNOWN-FINDING: property={prop} {f['id']}: {f['what']} (seen {len(vs)}x this run)")
 
     if unexplained:
